@@ -20,7 +20,7 @@ import re, sys, os
 sys.path.insert(0, os.path.dirname(os.path.abspath(__file__)))
 from rs import *
 
-IRREGULAR = {"Nsec", "Nsec3", "Svcb", "Https", "Ipseckey"}
+IRREGULAR = {"Ipseckey"}
 
 # Rust type -> field kind
 NUM = {"u8": "U8", "u16": "U16", "u32": "U32", "Serial": "U32", "Ttl": "U32",
@@ -30,7 +30,9 @@ NUM = {"u8": "U8", "u16": "U16", "u32": "U32", "Serial": "U32", "Ttl": "U32",
        "TlsaMatchingType": "U8", "CaaFlags": "U8", "TsigRcode": "U16",
        "Time48": "U48", "ZonemdScheme": "U8", "ZonemdAlgorithm": "U8"}
 OTHER = {"Ipv4Addr": "V4", "Ipv6Addr": "V6", "ParsedName": "NAME", "CharStr": "CharStr",
-         "CaaTag": "CaaTagStr", "Nsec3Salt": "Len8Bytes"}
+         "CaaTag": "CaaTagStr", "Nsec3Salt": "Len8Bytes", "OwnerHash": "Len8Bytes",
+         "RtypeBitmap": "Bitmap", "SvcParams": "SvcParamsF"}
+FIXED = {"U8": 1, "U16": 2, "U32": 4, "U48": 6, "V4": 4, "V6": 16}
 WIDTH = {"U8": 1, "U16": 2, "U32": 4, "U48": 6}
 
 
@@ -343,6 +345,46 @@ def rdlen_none(imps, tname, what):
     return False
 
 
+def rdlen_shape(body, fields, written, what):
+    """(sum of the constant terms, number of length terms) of an rdlen body; the
+    fields whose length is added must be exactly the variable-length fields
+    that compose writes."""
+    t = re.sub(r'"[^"]*"', '""', body)
+    t = re.sub(r"_compress|compress", " ", t)
+    fixed = 0
+    def mul(m):
+        nonlocal fixed
+        ty = m.group(2)
+        if ty not in NUM:
+            raise GenError("%s: COMPOSE_LEN of unknown type %s" % (what, ty))
+        fixed += int(m.group(1)) * WIDTH[NUM[ty]]
+        return " "
+    t = re.sub(r"\b(\d+)\s*\*\s*(\w+)::COMPOSE_LEN", mul, t)
+    def cl(m):
+        nonlocal fixed
+        ty = m.group(1)
+        if ty not in NUM:
+            raise GenError("%s: COMPOSE_LEN of unknown type %s" % (what, ty))
+        fixed += WIDTH[NUM[ty]]
+        return " "
+    t = re.sub(r"\b(\w+)::COMPOSE_LEN", cl, t)
+    names = []
+    def var(m):
+        names.append(m.group(1))
+        return " "
+    t = re.sub(r"self\s*\.\s*(\$?\w+)\s*\.\s*compose_len\(\)", var, t)
+    t = re.sub(r"self\s*\.\s*(\w+)\s*\.\s*as_ref\(\)\s*\.\s*len\(\)", var, t)
+    t = re.sub(r"self\s*\.\s*(\w+)\s*\.\s*len\(\)", var, t)
+    for m in re.finditer(r"(?<![\w.])(\d+)(?![\w.])", t):
+        fixed += int(m.group(1))
+    if re.search(r"self\s*\.", t):
+        raise GenError("%s: unrecognised term in rdlen: %r" % (what, " ".join(t.split())))
+    expect = [f for f in written if kind_of_type(fields[f], what) not in FIXED]
+    if sorted(names) != sorted(expect):
+        raise GenError("%s: rdlen adds the lengths of %s, compose writes the variable-length fields %s" % (what, names, expect))
+    return fixed, len(names)
+
+
 def ctor_checks(imps, tname, what):
     for fname in ("new", "from_octets"):
         try:
@@ -413,6 +455,7 @@ def build():
 
     rows, parse_rows, compose_rows, canon_rows = [], [], [], []
     none_types, lower_types, name_types, all_types = [], [], [], []
+    shapes = []
     for module, tname in types:
         mnem = tname.upper()
         if mnem not in codes:
@@ -440,6 +483,7 @@ def build():
             pl = ["NAME"]
             none = re.match(r"if compress \{ None \} else \{ Some\(", " ".join(fn_body(mbody, "rdlen").split())) is not None
             long_, ctor = None, False
+            shape = rdlen_shape(fn_body(mbody, "rdlen"), fields, ["$field"], tname + "::rdlen")
         else:
             src = None
             iname = tname
@@ -469,13 +513,13 @@ def build():
                 continue
             consts = dict((m.group(1), num(m.group(2))) for m in
                           re.finditer(r"const\s+(\w+)\s*:\s*usize\s*=\s*(\d+)\s*;", src))
-            pl, long_ = parse_list(find_fn(imps, tname, "parse", None), tname + "::parse", consts)
-            params = new_params(imps, tname)
+            pl, long_ = parse_list(find_fn(imps, iname, "parse", None), tname + "::parse", consts)
+            params = new_params(imps, iname)
             del ORDER[:]
-            cl = compose_list(imps, tname, "compose_rdata", fields, tname + "::compose_rdata", True)
+            cl = compose_list(imps, iname, "compose_rdata", fields, tname + "::compose_rdata", True)
             order_c = list(ORDER)
             del ORDER[:]
-            kl = compose_list(imps, tname, "compose_canonical_rdata", fields, tname + "::compose_canonical_rdata", False)
+            kl = compose_list(imps, iname, "compose_canonical_rdata", fields, tname + "::compose_canonical_rdata", False)
             order_k = list(ORDER)
             # parse passes its results to new() positionally, so the order in which
             # compose writes the struct fields must be the parameter order of new()
@@ -488,8 +532,10 @@ def build():
                     return o
                 if dedup(order_c) != params or dedup(order_k) != params:
                     raise GenError("%s: compose writes fields %s / %s but new() takes %s" % (tname, order_c, order_k, params))
-            none = rdlen_none(imps, tname, tname + "::rdlen")
-            ctor = ctor_checks(imps, tname, tname)
+            none = rdlen_none(imps, iname, tname + "::rdlen")
+            ctor = ctor_checks(imps, iname, tname)
+            shape = rdlen_shape(find_fn(imps, iname, "rdlen", "ComposeRecordData"), fields,
+                                [f for f in dict.fromkeys(order_c)], tname + "::rdlen")
         merged = merge(tname, pl, cl, kl)
         if none != any(c == "NameC" for c in cl):
             raise GenError("%s: rdlen(compress) = None does not match use of append_compressed_name" % tname)
@@ -500,6 +546,7 @@ def build():
         if any(k == "NameL" for k in kl):
             lower_types.append(code)
         rows.append((code, tname, merged, long_, ctor))
+        shapes.append((code, shape))
         parse_rows.append((code, [coq_field(k) for k in pl]))
     # UnknownRecordData
     rd = strip_comments(read("src/base/rdata.rs"))
@@ -509,6 +556,7 @@ def build():
     cl = compose_list(uimps, "UnknownRecordData", "compose_rdata", ufields, "Unknown::compose_rdata", True)
     kl = compose_list(uimps, "UnknownRecordData", "compose_canonical_rdata", ufields, "Unknown::compose_canonical_rdata", False)
     unknown = (merge("Unknown", pl, cl, kl), long_, ctor_checks(uimps, "UnknownRecordData", "Unknown"))
+    ushape = rdlen_shape(find_fn(uimps, "UnknownRecordData", "rdlen", "ComposeRecordData"), ufields, ["data"], "Unknown::rdlen")
     one(r"if len > usize::from\(u16::MAX\) \{\s*Err\(Self\(\(\)\)\)", fn_body(rd, "check_len", after="impl LongRecordData"), "LongRecordData::check_len bound")
     # Opt is added by the macro itself
     one(r"Opt::RTYPE\s*=>", macros, "Opt arm of parse_any_rdata")
@@ -542,13 +590,16 @@ def build():
     parse_rows.sort()
 
     def sch(fields, long_, ctor):
-        return "mkS [%s] %s %s" % ("; ".join(fields), "None" if long_ is None else "(Some %d%%N)" % long_,
-                                   "true" if ctor else "false")
+        return "mkS [%s] %s %s PNone" % ("; ".join(fields), "None" if long_ is None else "(Some %d%%N)" % long_,
+                                         "true" if ctor else "false")
     L = []
     L.append(("schema_src", "list (N * schema)",
               "[ " + "\n  ; ".join("(%d%%N, %s) (* %s *)" % (c, sch(f, l, k), t) for c, t, f, l, k in rows) + " ]"))
     L.append(("unknown_src", "schema", sch(*unknown)))
     L.append(("rdlen_none_src", "list N", nl(sorted(none_types))))
+    L.append(("rdlen_shape_src", "list (N * (N * N))",
+              "[" + "; ".join("(%d%%N, (%d%%N, %d%%N))" % (c, sh[0], sh[1]) for c, sh in sorted(shapes)) + "]"))
+    L.append(("rdlen_shape_unknown_src", "N * N", "(%d%%N, %d%%N)" % ushape))
     L.append(("lower_types_src", "list N", nl(sorted(lower_types))))
     L.append(("name_types_src", "list N", nl(sorted(name_types))))
     L.append(("all_types_src", "list N", nl(sorted(all_types))))
